@@ -145,12 +145,15 @@ func label(t *ctask) string {
 	return fmt.Sprintf("%s:%s", fn, t.want.Op)
 }
 
+func bareLabel(t *ctask) string { return label(t) }
+
 type decision struct {
 	Chosen  int   `json:"c"`
 	Enabled []int `json:"e"`
 }
 
 type blockRun struct {
+	offPrefix int // number of given choices that were not enabled when their turn came
 	decisions []decision
 	labels    []string
 	deadlock  bool
@@ -161,6 +164,12 @@ type blockRun struct {
 // runBlock executes the tasks under the cooperative scheduler following `prefix`
 // (then: keep running the current task while it is enabled, else the lowest id).
 func (w *World) runBlock(tasks []*ctask, prefix []int, rng *rand.Rand) blockRun {
+	return w.runBlockAuto(tasks, prefix, rng, nil)
+}
+
+// runBlockAuto: as runBlock; a task parked in front of a Lock/RLock whose label is in `auto` is resumed at once
+// when it is the task that just ran (no decision is taken there: the specification has no location for it).
+func (w *World) runBlockAuto(tasks []*ctask, prefix []int, rng *rand.Rand, auto map[string]bool) blockRun {
 	c := newCoop()
 	verifrt.SetInterceptorMask(c, verifrt.MaskAll)
 	defer verifrt.SetInterceptorMask(w.ev, 1<<uint(verifrt.OpRUnlock))
@@ -219,7 +228,22 @@ func (w *World) runBlock(tasks []*ctask, prefix []int, rng *rand.Rand) blockRun 
 		}
 		sort.Ints(en)
 		choice := en[0]
-		if step < len(prefix) {
+		autoStep := false
+		if auto != nil && cur > 0 {
+			for _, t := range tasks {
+				if t.id == cur && t.state == "parked" && t.want != nil && auto[bareLabel(t)] {
+					for _, e := range en {
+						if e == cur {
+							autoStep = true
+						}
+					}
+				}
+			}
+		}
+		if autoStep {
+			choice = cur
+			step--
+		} else if step < len(prefix) {
 			choice = prefix[step]
 			ok := false
 			for _, e := range en {
@@ -229,6 +253,7 @@ func (w *World) runBlock(tasks []*ctask, prefix []int, rng *rand.Rand) blockRun 
 			}
 			if !ok {
 				choice = en[0] // the prefix does not apply (outcome-dependent control flow): fall back
+				br.offPrefix++
 			}
 		} else if rng != nil {
 			// random schedules: mostly keep running the current task, sometimes switch
@@ -253,7 +278,9 @@ func (w *World) runBlock(tasks []*ctask, prefix []int, rng *rand.Rand) blockRun 
 				t = x
 			}
 		}
-		br.decisions = append(br.decisions, decision{Chosen: choice, Enabled: en})
+		if !autoStep {
+			br.decisions = append(br.decisions, decision{Chosen: choice, Enabled: en})
+		}
 		br.labels = append(br.labels, fmt.Sprintf("%d:%s", t.id, label(t)))
 		cur = choice
 		c.mu.Lock()
@@ -544,4 +571,121 @@ func outcomeKey(recs []M, nsetup int) string {
 	b, _ := json.Marshal(parts)
 	h := sha256.Sum256(b)
 	return hex.EncodeToString(h[:8])
+}
+
+// ---------------------------------------------------------------------------
+// l1m: phases of concurrent requests (RelayConc.tla).  A scenario is a list of phases; the requests of a phase
+// run at the same time under the cooperative scheduler, the next phase starts when all of them have returned
+// (the specification's Barrier).  The schedule of a phase is given (choices: task ids, one per decision; tasks
+// in front of an unmodelled Lock/RLock are resumed without a decision) or drawn at random at the full grain.
+
+type PhaseScenario struct {
+	CID        string   `json:"cid"`
+	Config     Config   `json:"config"`
+	Phases     [][]M    `json:"phases"`     // [[{conn, req}]]
+	Sched      [][]int  `json:"sched"`      // per phase: connection ids in the order of the specification's steps
+	Unmodelled []string `json:"unmodelled"` // labels resumed without a decision
+	Random     bool     `json:"random"`
+	Seed       int64    `json:"seed"`
+}
+
+func (sc *PhaseScenario) run() M {
+	w := NewWorld(sc.Config)
+	abandoned := false
+	defer func() {
+		if !abandoned {
+			w.Shutdown()
+		}
+	}()
+	var rng *rand.Rand
+	if sc.Random {
+		rng = rand.New(rand.NewSource(sc.Seed))
+	}
+	var auto map[string]bool
+	if !sc.Random {
+		auto = map[string]bool{}
+		for _, l := range sc.Unmodelled {
+			auto[l] = true
+		}
+	}
+	res := M{"cid": sc.CID}
+	var phases []M
+	for pi, ph := range sc.Phases {
+		var tasks []*ctask
+		byConn := map[int]int{}
+		for i, b := range ph {
+			rq, _ := b["req"].(map[string]any)
+			t := &ctask{id: i + 1, conn: geti(b, "conn"), req: norm(M(rq))}
+			tasks = append(tasks, t)
+			byConn[t.conn] = t.id
+			w.conn(t.conn)
+		}
+		var prefix []int
+		if pi < len(sc.Sched) {
+			for _, c := range sc.Sched[pi] {
+				prefix = append(prefix, byConn[c])
+			}
+		}
+		w.out = map[int][]M{}
+		br := w.runBlockAuto(tasks, prefix, rng, auto)
+		rec := M{"phase": pi + 1, "ret": "ok"}
+		var conns []int
+		rets := []any{}
+		for _, t := range tasks {
+			conns = append(conns, t.conn)
+			rets = append(rets, br.results[t.id].ret)
+		}
+		rec["conns"] = conns
+		rec["rets"] = rets
+		rec["sched"] = br.labels
+		rec["off"] = br.offPrefix
+		rec["left"] = len(prefix) - len(br.decisions)
+		if br.deadlock || br.stuck != "" {
+			abandoned = true
+			rec["ret"] = "deadlock"
+			if !br.deadlock {
+				rec["ret"] = "harness"
+			}
+			rec["note"] = br.stuck
+			phases = append(phases, rec)
+			break
+		}
+		rec["out"] = w.collectOutRaw()
+		rec["post"] = w.projectState()
+		phases = append(phases, rec)
+	}
+	res["phases"] = phases
+	return res
+}
+
+func cmdL1m(args []string) {
+	fs := flag.NewFlagSet("l1m", flag.ExitOnError)
+	in := fs.String("in", "", "phase scenarios (ndjson)")
+	outp := fs.String("out", "", "results (ndjson)")
+	fs.Parse(args)
+	f, err := os.Open(*in)
+	if err != nil {
+		fatal(2, "%v", err)
+	}
+	defer f.Close()
+	of, _ := os.Create(*outp)
+	defer of.Close()
+	bw := bufio.NewWriterSize(of, 1<<20)
+	defer bw.Flush()
+	enc := json.NewEncoder(bw)
+	scn := bufio.NewScanner(f)
+	scn.Buffer(make([]byte, 1<<20), 1<<28)
+	n := 0
+	for scn.Scan() {
+		if len(scn.Bytes()) == 0 {
+			continue
+		}
+		var sc PhaseScenario
+		if err := json.Unmarshal(scn.Bytes(), &sc); err != nil {
+			fatal(2, "bad scenario: %v", err)
+		}
+		enc.Encode(sc.run())
+		n++
+	}
+	fmt.Printf("{\"scenarios\": %d}\n", n)
 }
